@@ -590,7 +590,9 @@ class Ownership:
                             if k.arg == "out" and not (isinstance(k.value, ast.Constant) and k.value.value is None):
                                 out.append(Sink(fi, si, k.value, "out=", n))
                         f = n.func
-                        if isinstance(f, ast.Attribute) and f.attr in INPLACE_METHODS:
+                        if isinstance(f, ast.Attribute) and f.attr == "setflags" and not n.args and [k.arg for k in n.keywords] == ["write"]:
+                            out.append(Sink(fi, si, f.value, "flag:writeable", n))      # `a.setflags(write=..)` is `a.flags.writeable = ..`
+                        elif isinstance(f, ast.Attribute) and f.attr in INPLACE_METHODS:
                             out.append(Sink(fi, si, f.value, "method:" + f.attr, n))
                         d = dotted(f) or ""
                         if d.split(".")[0] in ("np", "numpy") and d.split(".")[-1] in NP_INPLACE_FIRST_ARG and n.args:
